@@ -68,7 +68,10 @@ pub fn run(a: &Args, out: &mut impl Write) {
                     repeated += 1;
                 }
                 seen.push(ti);
-                let kind = r.below(4);
+                // one installation in nine redirects the function to itself (a table that "fakes with the
+                // original" to switch a fake off, or two functions merged by the linker): never called while
+                // that is the newest installation
+                let kind = if r.chance(1, 9) { 4 } else { r.below(4) };
                 let val: u32;
                 unsafe {
                     match kind {
@@ -86,6 +89,10 @@ pub fn run(a: &Args, out: &mut impl Write) {
                             inj.when_called(FuncPtr::new(ta as *const (), "fn() -> u32")).will_execute(shadow::fake!(func_type: fn() -> u32, returns: 0xC1C1E002));
                             val = 0xC1C1E002;
                         }
+                        4 => {
+                            inj.when_called(FuncPtr::new(ta as *const (), "fn() -> u32")).will_execute_raw(FuncPtr::new(ta as *const (), "fn() -> u32"));
+                            val = u32::MAX;
+                        }
                         _ => {
                             inj.when_called_unchecked(FuncPtr::new(ta as *const (), "")).will_execute_raw_unchecked(shadow::func_unchecked!(rust_fake));
                             val = 0xC1C1E001;
@@ -98,7 +105,7 @@ pub fn run(a: &Args, out: &mut impl Write) {
             }
             maxlive = maxlive.max(shim::owned().len());
             for &(ti, v) in &expect {
-                if call_u32(lay.funcs[ti].0) != v {
+                if v != u32::MAX && call_u32(lay.funcs[ti].0) != v {
                     wrong_calls += 1;
                 }
             }
